@@ -272,7 +272,7 @@ def gen_root_module(tag, base_module, defs, cfg_text):
 
 
 def run_tlc_root(tag, base_module, defs, cfg_text, workers=None, timeout=1800, simulate=None, env=None,
-                 deque=False, xss=False):
+                 deque=False, xss=False, extra=()):
     d, root = gen_root_module(tag, base_module, defs, cfg_text)
     logp = os.path.join(d, "tlc.log")
     meta = os.path.join(d, "meta")
@@ -280,7 +280,7 @@ def run_tlc_root(tag, base_module, defs, cfg_text, workers=None, timeout=1800, s
            "-cleanup", "-noGenerateSpecTE", "-config", root + ".cfg"]
     if simulate:
         cmd += ["-simulate", simulate]
-    cmd += [root + ".tla"]
+    cmd += list(extra) + [root + ".tla"]
     e = dict(os.environ)
     if env:
         e.update({k: str(v) for k, v in env.items()})
